@@ -30,13 +30,17 @@ TYPES = [
          mk='T{T::point_type{Px, Py}, Pr}', ops='eq ne', eq='(ax == bx && ay == by && ar == br)'),
     dict(n='ref', inc=['reference.hpp', 'reference_comparison.hpp', 'reference_hash.hpp'], t='fcppt::reference<int>', p=[('unsigned', 'i')],
          mk='T{cells[Pi % 8]}', ops='eq ne lt hash', eq='((ai % 8) == (bi % 8))', hash='fcppt::reference_hash<T>{}(X)', glob='static int cells[8];'),
+    dict(n='rec', inc=['record/object.hpp', 'record/comparison.hpp', 'record/element.hpp', 'record/make_label.hpp'], t='fcppt::record::object<fcppt::record::element<la, int>, fcppt::record::element<lb, unsigned>>',
+         p=[('int', 'x'), ('unsigned', 'y')], mk='T{la{} = Px, lb{} = Py}', ops='eq ne', eq='(ax == bx && ay == by)', glob='FCPPT_RECORD_MAKE_LABEL(la);\nFCPPT_RECORD_MAKE_LABEL(lb);'),
+    dict(n='earr', inc=['enum/array.hpp', 'enum/array_comparison.hpp'], t='fcppt::enum_::array<E3, int>', p=[('int', 'x'), ('int', 'y'), ('int', 'z')],
+         mk='T{Px, Py, Pz}', ops='eq ne', eq='(ax == bx && ay == by && az == bz)', glob='enum class E3 { e0, e1, e2, fcppt_maximum = e2 };'),
 ]
 CT = {'bool': '_Bool', 'int': 'u32', 'unsigned': 'u32'}
 
 
 def make(tier):
     P = Plan('C17', level='proof', design_ref='DESIGN.md section 5 C17')
-    P.not_decided += ['heap types: grid, tree, raw_vector, shared_ptr/unique_ptr (std::vector/std::list/control-block code under symbolic shapes)', 'record, enum array comparisons', 'recursive / type_iso wrappers']
+    P.not_decided += ['heap types: grid, tree, raw_vector, shared_ptr/unique_ptr (std::vector/std::list/control-block code under symbolic shapes)', 'recursive / type_iso wrappers']
     P.meta += ['== is an equivalence because it is proved equal to equality of the observable component tuple; strict weak order = irreflexive + transitive + transitive incomparability, each proved for three fully symbolic values']
     make_strong(P)
     for t in TYPES:
